@@ -390,6 +390,17 @@ func (w *c02World) step(tag string) c02StepResult {
 	for id := range cur.Status.NetworkInterfaces {
 		w.everRecorded[id] = true
 	}
+	// a failed record write may lose what the controller was told in that pass; the loss
+	// is repaired by the next pass that completes a full sync and persists it
+	if w.writeErrs > w.writes {
+		w.writeLost = true
+	} else if w.writes > 0 {
+		for i := range res.calls {
+			if res.calls[i].Kind == cloudctl.KDescribe && res.calls[i].Err == "" && len(res.calls[i].IDs) == 0 {
+				w.writeLost = false
+			}
+		}
+	}
 	for i := range res.calls {
 		c := &res.calls[i]
 		if c.Kind != cloudctl.KDescribe || c.Err != "" || len(c.IDs) > 0 {
@@ -424,11 +435,6 @@ func (w *c02World) step(tag string) c02StepResult {
 	var hard []string
 	for _, m := range mon {
 		switch {
-		case lost != "" && c08Known("C08-lost-write-no-resync"):
-			// the controller was told about resources a failed record write then lost, and
-			// it did not resynchronise before asking for more
-			w.c.Label("known:C08-lost-write-no-resync")
-			w.trace("    (known C08-lost-write-no-resync: %s; %s)", lost, m.msg)
 		case strings.HasPrefix(m.kind, "assign:") && c08NilFamily(prev, m.kind) && c08Known("C08-sync-merge-nil-map"):
 			// the record holds no address map of that family for the interface, so the
 			// addresses the full sync was told about were dropped by mergeIPMap
@@ -447,6 +453,11 @@ func (w *c02World) step(tag string) c02StepResult {
 		case m.kind == "perkind" && emptyMode && c08Known("C08-rollback-record-lacks-mode"):
 			w.c.Label("known:C08-rollback-record-lacks-mode")
 			w.trace("    (known C08-rollback-record-lacks-mode: %s)", m.msg)
+		case lost != "" && w.writeLost && c08Known("C08-lost-write-no-resync"):
+			// the controller was told about resources a failed record write then lost, and
+			// it did not resynchronise before asking for more
+			w.c.Label("known:C08-lost-write-no-resync")
+			w.trace("    (known C08-lost-write-no-resync: %s; %s)", lost, m.msg)
 		default:
 			hard = append(hard, m.msg)
 		}
